@@ -129,7 +129,7 @@ def run(ctx: Ctx):
         rp = json.loads(open(ctx.replay).read())
         cases = [rp["case"]] if "case" in rp else []
     else:
-        n = 75 if ctx.quick else 900
+        n = 65 if ctx.quick else 900
         cases = [X.gen_case(ctx.rng, "sqlite" if i % 3 == 2 else "duckdb") for i in range(n)]
 
     terms, owners, labels = [], [], []
